@@ -4,7 +4,6 @@ package mux
 
 import (
 	zzv "github.com/issue9/mux/v9/internal/zzverif"
-	"github.com/issue9/mux/v9/types"
 )
 
 // ---- reference resolver: works on pattern strings only, never builds a tree ----
@@ -176,7 +175,7 @@ func refResolve(cs []rcand, p string, ps []rparam) []routcome {
 }
 
 
-func sameOutcome(o routcome, id int, ps types.Params) bool {
+func sameOutcome(o routcome, id int, ps zzParamsLike) bool {
 	if o.id != id || len(o.ps) != ps.Count() {
 		return false
 	}
@@ -211,19 +210,47 @@ var zzC02Pool = []string{
 // zzC02Bundle: >= 5 literal siblings (first-byte index) next to parameter siblings.
 var zzC02Bundle = []string{"/u/a", "/u/b", "/u/c", "/u/d", "/u/e1", "/u/e2"}
 
-// ZZC02(n): n = maxLen*1000000*... : the table is the base-16 digit string of n/100
-// (digit d = pool entry d, least significant first; digit 0 at the top = add the
-// literal bundle first), maxLen = n%100.
+// zzC02Tables: add-only tables (registration order matters). The first 16 are 8 selections
+// from the pool in two orders; the rest target the first-byte index, deep literal splits,
+// shared suffixes and the three bundled interceptors.
+var zzC02Tables = [][]string{}
+
+func init() {
+	pick := func(ix ...int) []string {
+		var out []string
+		for _, i := range ix {
+			if i == 0 {
+				out = append(out, zzC02Bundle...)
+			} else {
+				out = append(out, zzC02Pool[i-1])
+			}
+		}
+		return out
+	}
+	for _, t := range [][]int{{1, 2, 3, 4}, {4, 3, 2, 1}, {6, 10, 12, 5}, {5, 12, 10, 6}, {0, 5, 7, 8}, {8, 7, 0, 5}, {11, 8, 5, 9}, {9, 5, 8, 11},
+		{13, 3, 5, 7}, {7, 5, 3, 13}, {14, 4, 15}, {15, 4, 14}, {1, 9, 8, 2}, {2, 8, 9, 1}, {0, 1, 2, 11}, {11, 2, 0, 1}} {
+		zzC02Tables = append(zzC02Tables, pick(t...))
+	}
+	zzC02Tables = append(zzC02Tables,
+		[]string{"/a/x", "/b", "/c", "/d", "/e", "/{p}/y"},                                      // 16: indexed literal with children fails, parameter sibling takes over
+		[]string{"/{p}/y", "/e", "/d", "/c", "/b", "/a/x", "/a/{q:digit}"},                      // 17: the same, other order, plus a parameter under the literal
+		[]string{"/a", "/b", "/c", "/d", "/{n:digit}", "/{w:word}", "/{r:[a-c]+}", "/{s}"},      // 18: >=5 children, four of them parameters of different kinds
+		[]string{"/abc", "/abd", "/ab", "/a", "/abcd/{x}", "/{x}bc"},                            // 19: deep literal splitting
+		[]string{"/{x}bc", "/abcd/{x}", "/a", "/ab", "/abd", "/abc"},                            // 20: reverse order
+		[]string{"/{a}-{b}", "/{a}-x", "/{a}/y", "/{a}"},                                        // 21: one parameter, several suffixes
+		[]string{"/{a:any}/1", "/{d:digit}/2", "/{w:word}/3", "/{n}/4", "/{d:digit}"},           // 22: three interceptors and a named parameter at one position
+		[]string{"/u/{id}/{p:\\d+}", "/u/{id}/{p2:\\d+}/z", "/u/{id}/{a}", "/u/{id}", "/u/{id}/"}, // 23: endpoint vs continuing, regexp with and without tail
+		[]string{"/f/{id:\\d+}/a", "/f/{id:\\d+}/b", "/f/{p:any}"},                               // 24: endpoint-leaf interceptor next to a regexp that has children
+		[]string{"/f/{p:any}", "/f/{id:\\d+}/b", "/f/{id:\\d+}/a", "/f/{n}"},                     // 25: other order, plus a named endpoint
+		[]string{"/u", "/u/{id}/p", "/u/{id}/l"},                                                  // 26: a route node above a route-less parameter node
+		[]string{"/a", "/a/b/c", "/a/b/d", "/a/c", "/a/d", "/a/e", "/a/f", "/a/{x}/g"},            // 27: the same through the first-byte index
+	)
+}
+
+// ZZC02(n): n = table*100 + maxLen.
 func ZZC02(n int) {
 	maxLen := n % 100
-	var pats []string
-	for c := n / 100; c > 0; c /= 16 {
-		if c%16 == 0 {
-			pats = append(pats, zzC02Bundle...)
-			continue
-		}
-		pats = append(pats, zzC02Pool[c%16-1])
-	}
+	pats := zzC02Tables[n/100]
 	r := zzNewRouter("r")
 	for i, p := range pats {
 		r.Handle(p, &hnd{id: i + 1}, nil, "GET")
